@@ -39,6 +39,18 @@ const MORE_KINDS: &[(&str, &str)] = &[
     ("branch-result-fn", "fn @A@(k: int32) -> int32 { k + 1 }\nfn @B@(k: int32) -> int32 { k * 2 }\nfn main() -> unit { let c = @B@(1) > 1; let r = if c { @A@(10) } else { @B@(10) }; let s = match r { 11 => @A@(r), _ => @B@(r), }; string_println(int32_to_string(r * 100 + s)) }\n"),
     ("generic-struct", "struct @A@[T] { p: T }\nstruct @B@[T] { q: T }\nfn main() -> unit { let x = @A@ { p: 1 }; let y = @B@ { q: \"s\" }; string_println(int32_to_string(x.p) + y.q) }\n"),
     ("generic-enum", "enum @A@[T] { Aa, Ab(T) }\nenum @B@[T] { Ba(T) }\nfn main() -> unit { let x = @A@::Ab(3); let y = @B@::Ba(\"t\"); let n = match x { @A@::Aa => 0, @A@::Ab(v) => v, }; let m = match y { @B@::Ba(w) => w, }; string_println(int32_to_string(n) + m) }\n"),
+    // ---- the emission sites the kinds above do not reach (added for the Go-word dictionary, used for every stem too)
+    // a trait method called through a trait object in every position a call can take: with arguments, as a unit
+    // statement, inside a closure, inside a loop, inside a function that receives the object, two impls
+    ("dyn-method", "trait Tt { fn @A@(Self, int32) -> int32; fn @B@(Self) -> unit; }\nstruct Pp { v: int32 }\nimpl Tt for Pp { fn @A@(self: Pp, k: int32) -> int32 { self.v + k } fn @B@(self: Pp) -> unit { string_println(\"p\") } }\nimpl Tt for int32 { fn @A@(self: int32, k: int32) -> int32 { self * k } fn @B@(self: int32) -> unit { string_println(\"i\") } }\nfn through(d: dyn Tt, k: int32) -> int32 { let _ = Tt::@B@(d); Tt::@A@(d, k) }\nfn main() -> unit { let p = Pp { v: 1 }; let d: dyn Tt = p; let n: int32 = 7; let e: dyn Tt = n; let g = |k: int32| Tt::@A@(d, k); let i: Ref[int32] = ref(0); let _ = while ref_get(i) < 2 { Tt::@B@(e); let _ = ref_set(i, ref_get(i) + 1); }; string_println(int32_to_string(through(d, 2) + g(3) * 10 + through(e, 4) * 100)) }\n"),
+    // (a `dyn` of such an instance is the known C17 finding dyn-callee-undeclared / generic-instance, whatever the names: kept out)
+    ("trait-instance-impl-method", "trait Tt { fn @A@(Self) -> int32; fn @B@(Self) -> int32; }\nstruct Bx[T] { v: T, n: int32 }\nimpl Tt for Bx[string] { fn @A@(self: Bx[string]) -> int32 { self.n + 1 } fn @B@(self: Bx[string]) -> int32 { self.n * 2 } }\nfn via[T: Tt](x: T) -> int32 { Tt::@A@(x) + Tt::@B@(x) * 100 }\nfn main() -> unit { let b: Bx[string] = Bx { v: \"s\", n: 10 }; string_println(int32_to_string(Tt::@A@(b) + Tt::@B@(b) * 100 + via(b) * 10000)) }\n"),
+    ("generic-impl-method", "struct Bx[T] { v: T }\nimpl[T] Bx[T] { fn @A@(self: Bx[T]) -> T { self.v } fn @B@(self: Bx[T], o: T) -> Bx[T] { Bx { v: o } } }\nfn main() -> unit { let b: Bx[int32] = Bx { v: 1 }; let c: Bx[string] = Bx { v: \"s\" }; let b2: Bx[int32] = b.@B@(2); let c2: Bx[string] = c.@B@(\"t\"); string_println(int32_to_string(b.@A@() + Bx::@A@(b2)) + c2.@A@()) }\n"),
+    ("closure-param", "fn main() -> unit { let g = |@A@: int32, @B@: int32| @A@ * 10 + @B@; let h = |@A@: string| { let k = |@B@: string| @A@ + @B@; k(\"t\") }; string_println(int32_to_string(g(1, 2)) + h(\"s\")) }\n"),
+    ("pattern-binder", "enum Ee { Aa(int32), Bb(string, int32) }\nstruct Ss { p: int32, q: int32 }\nfn main() -> unit { let x = Ee::Bb(\"s\", 2); let (@A@, @B@) = (1, 20); let s = Ss { p: @A@, q: @B@ }; let Ss { p: @B@, q: @A@ } = s; let r = match x { Ee::Aa(@A@) => int32_to_string(@A@), Ee::Bb(@A@, @B@) => @A@ + int32_to_string(@B@), }; string_println(r + int32_to_string(@A@ + @B@)) }\n"),
+    ("fn-value", "fn @A@(k: int32) -> int32 { k + 1 }\nfn @B@(k: int32) -> int32 { k * 2 }\nfn app(f: (int32) -> int32, k: int32) -> int32 { f(k) }\nfn main() -> unit { let f = @A@; string_println(int32_to_string(app(@A@, 1) + app(@B@, 2) * 10 + f(3) * 100)) }\n"),
+    ("generic-variant", "enum Ee[T] { @A@(T), @B@ }\nfn pick[T](e: Ee[T], d: T) -> T { match e { Ee::@A@(v) => v, Ee::@B@ => d, } }\nfn main() -> unit { let x: Ee[int32] = Ee::@A@(3); let y: Ee[string] = Ee::@B@; string_println(int32_to_string(pick(x, 0)) + pick(y, \"d\")) }\n"),
+    ("generic-field", "struct Ss[T] { @A@: T, @B@: int32 }\nfn first[T](s: Ss[T]) -> T { s.@A@ }\nfn main() -> unit { let s = Ss { @A@: \"s\", @B@: 2 }; let t = Ss { @A@: 1, @B@: 3 }; let Ss { @A@: p, @B@: q } = t; string_println(first(s) + int32_to_string(s.@B@ + first(t) + p + q)) }\n"),
 ];
 
 /// items of a library package `Lib`, used from `Main` under the qualified name: (kind, Lib/lib.gom after
@@ -51,6 +63,8 @@ const PKG_KINDS: &[(&str, &str, &str)] = &[
     ("pkg-inherent-method", "struct Pp { v: int32 }\nimpl Pp { fn @A@(self: Pp) -> int32 { self.v + 1 } fn @B@(self: Pp) -> int32 { self.v * 2 } }\n", "let p = Lib::Pp { v: 10 }; string_println(int32_to_string(p.@A@() + p.@B@() * 100))"),
     ("pkg-trait-method", "trait Tt { fn @A@(Self) -> int32; fn @B@(Self) -> int32; }\nimpl Tt for int32 { fn @A@(self: int32) -> int32 { self + 1 } fn @B@(self: int32) -> int32 { self * 2 } }\n", "let n: int32 = 10; let d: dyn Lib::Tt = n; string_println(int32_to_string(Lib::Tt::@A@(n) + Lib::Tt::@B@(n) * 100 + Lib::Tt::@A@(d) * 10000))"),
     ("pkg-trait", "trait @A@ { fn mm(Self) -> int32; }\ntrait @B@ { fn mm(Self) -> int32; }\nimpl @A@ for int32 { fn mm(self: int32) -> int32 { self + 1 } }\nimpl @B@ for int32 { fn mm(self: int32) -> int32 { self * 2 } }\n", "let n: int32 = 10; let d: dyn Lib::@A@ = n; string_println(int32_to_string(Lib::@A@::mm(n) + Lib::@B@::mm(n) * 100 + Lib::@A@::mm(d) * 10000))"),
+    ("pkg-variant", "enum Ee { @A@(int32), @B@(string), Zz }\n", "let x = Lib::Ee::@A@(3); let y = Lib::Ee::@B@(\"t\"); let n = match x { Lib::Ee::@A@(v) => v, _ => 0, }; let m = match y { Lib::Ee::@B@(w) => w, _ => \"z\", }; string_println(int32_to_string(n) + m)"),
+    ("pkg-field", "struct Ss { @A@: int32, @B@: string }\n", "let s = Lib::Ss { @A@: 1, @B@: \"s\" }; string_println(int32_to_string(s.@A@) + s.@B@)"),
 ];
 
 /// the package itself carries the name: (kind, lib text after the `package` line, body of main) with @A@ the package
@@ -82,6 +96,40 @@ fn emit(id: &str, kind: &str, rel: &str, stem: &str, name: &str, outcome: Outcom
     }
 }
 
+/// negative controls of the text oracle itself: a Go file with `@` in one identifier position each — selector,
+/// function name, parameter, local, field declaration, key of a composite literal, type name, type-switch
+/// binding — must parse with an ordinary identifier there and must NOT parse with any of Go's keywords
+/// (`x.range` and `func default()` are syntax errors in Go).  Returns the cells where `goparse.rs` answers otherwise.
+fn goparse_keyword_selftest() -> Vec<String> {
+    const POSITIONS: &[(&str, &str)] = &[
+        ("selector", "package main\n\nfunc f(x T) int32 {\n    return x.@\n}\n"),
+        ("selector-call", "package main\n\nfunc f(x T) int32 {\n    var t1 int32 = x.vtable.@(x.data, 0)\n    return t1\n}\n"),
+        ("func-name", "package main\n\nfunc @() int32 {\n    return 1\n}\n"),
+        ("parameter", "package main\n\nfunc f(@ int32) int32 {\n    return 1\n}\n"),
+        ("local", "package main\n\nfunc f() int32 {\n    var @ int32 = 1\n    return 1\n}\n"),
+        ("operand", "package main\n\nfunc f() int32 {\n    return @\n}\n"),
+        ("field-decl", "package main\n\ntype T struct {\n    @ int32\n}\n"),
+        ("literal-key", "package main\n\nfunc f() T {\n    return T{@: 1}\n}\n"),
+        ("type-name", "package main\n\ntype @ struct {\n    a int32\n}\n"),
+        ("type-use", "package main\n\nfunc f(x @) int32 {\n    return 1\n}\n"),
+        ("type-switch-binding", "package main\n\nfunc f(x any) int32 {\n    switch @ := x.(type) {\n    case T:\n        return @.a\n    }\n    return 1\n}\n"),
+    ];
+    let mut bad = Vec::new();
+    for (pos, text) in POSITIONS {
+        if let Err(e) = crate::goparse::parse_go(&text.replace('@', "zqa")) {
+            bad.push(format!("{}: the control `zqa` does not parse: {}", pos, e));
+        }
+        for kw in crate::goparse::GO_KEYWORDS {
+            // in type position `struct` and `func` start a type literal, and `func`, `struct` … start other
+            // well-formed or differently ill-formed phrases: only "must not parse AS AN IDENTIFIER" is asked
+            if crate::goparse::parse_go(&text.replace('@', kw)).is_ok() {
+                bad.push(format!("{}: accepted with the keyword `{}`", pos, kw));
+            }
+        }
+    }
+    bad
+}
+
 pub fn main(args: &util::Args) {
     util::quiet_panics();
     let _ = std::fs::create_dir_all(&args.out);
@@ -89,6 +137,17 @@ pub fn main(args: &util::Args) {
         .rest
         .iter()
         .position(|x| x == "--stems")
+        .and_then(|i| args.rest.get(i + 1))
+        .map(|s| s.split(',').filter(|x| !x.is_empty()).map(|x| x.to_string()).collect())
+        .unwrap_or_default();
+    // the Go-word dictionary: spellings that mean something to GO (keywords, predeclared identifiers, names the
+    // runtime declares or relies on).  goml accepts most of them as ordinary identifiers, so every kind of item can
+    // carry one, and every place that prints the item's name must print the same legal Go identifier.  Only the
+    // name itself is tried (relation `=w`): the affix relations belong to tests on substrings.
+    let words: Vec<String> = args
+        .rest
+        .iter()
+        .position(|x| x == "--words")
         .and_then(|i| args.rest.get(i + 1))
         .map(|s| s.split(',').filter(|x| !x.is_empty()).map(|x| x.to_string()).collect())
         .unwrap_or_default();
@@ -106,9 +165,18 @@ pub fn main(args: &util::Args) {
             cases.push((rel.to_string(), w.clone(), name));
         }
     }
+    for w in &words {
+        if !stems.contains(w) {
+            cases.push(("=w".to_string(), w.clone(), w.clone()));
+        }
+    }
     for (rel, stem, name) in &cases {
         for (kind, tpl) in &kinds {
             if only_kind.is_some_and(|o| o != kind) {
+                continue;
+            }
+            // `extern type w` stands for the Go type `pkg.w`: a Go keyword there is the user's own invalid request
+            if kind == "extern-type" && crate::goparse::is_go_keyword(name) {
                 continue;
             }
             let src = tpl.replace("@A@", name).replace("@B@", "zqb");
@@ -139,7 +207,9 @@ pub fn main(args: &util::Args) {
         }
     }
     let _ = std::fs::remove_dir_all(&base);
-    let _ = writeln!(out, "#FEATS\tname-test catalogue: {} stems x {} relations x {} kinds = {} programs", stems.len(), related_names("w").len(), kinds.len() + PKG_KINDS.len() + 1, n);
+    let selftest = goparse_keyword_selftest();
+    let _ = writeln!(out, "#GOPARSE-KEYWORDS\t{}\t{}", if selftest.is_empty() { "ok" } else { "fail" }, crate::sexp::esc_line(&selftest.join(" | ")));
+    let _ = writeln!(out, "#FEATS\tname-test catalogue: ({} stems x {} relations + {} Go words) x {} kinds = {} programs", stems.len(), related_names("w").len(), words.iter().filter(|w| !stems.contains(w)).count(), kinds.len() + PKG_KINDS.len() + 1, n);
     std::fs::write(args.out.join("c02names.cases.tsv"), out).unwrap();
-    println!("c02names: {} programs, stems {:?}", n, stems);
+    println!("c02names: {} programs, stems {:?}, {} words", n, stems, words.len());
 }
